@@ -101,6 +101,38 @@ MUTATOR_KINDS = {
 EXACT_NOT_PINNED_TAGS = set()
 
 
+def nullable_tagged_union(doc, s, depth=0, seen=None):
+    """does the schema contain (through properties / items / additionalProperties / union branches / $ref) a
+    oneOf / anyOf that has a {"type":"null"} branch next to branches that pin a property to one string constant?"""
+    seen = seen if seen is not None else set()
+    if depth > 8 or not isinstance(s, dict):
+        return False
+    if "$ref" in s:
+        nm = s["$ref"].split("/")[-1]
+        if nm in seen:
+            return False
+        seen.add(nm)
+        return nullable_tagged_union(doc, doc["definitions"].get(nm), depth + 1, seen)
+    for k in ("oneOf", "anyOf"):
+        bs = s.get(k)
+        if isinstance(bs, list):
+            has_null = any(isinstance(b, dict) and b.get("type") == "null" for b in bs)
+            tagged = any(isinstance(b, dict) and any(isinstance(ps, dict) and isinstance(ps.get("enum"), list) and
+                                                      len(ps["enum"]) == 1 and isinstance(ps["enum"][0], str)
+                                                      for ps in (b.get("properties") or {}).values()) for b in bs)
+            if has_null and tagged:
+                return True
+            if any(nullable_tagged_union(doc, b, depth + 1, seen) for b in bs):
+                return True
+    subs = list((s.get("properties") or {}).values())
+    for k in ("items", "additionalProperties"):
+        if isinstance(s.get(k), dict):
+            subs.append(s[k])
+        elif isinstance(s.get(k), list):
+            subs += s[k]
+    return any(nullable_tagged_union(doc, x, depth + 1, seen) for x in subs)
+
+
 def theorem_names(path):
     if not os.path.exists(path):
         return []
@@ -566,6 +598,113 @@ def default_cases(seed, n):
     return out
 
 
+# ---------------------------------------------------------------------------
+# float enums / float deny lists: NEAR-member probes (member +- 1 ulp, x(1 +- 2^-52), +-1e-17 / +-1e-300
+# around 0).  The allow list of a float newtype is compared with `==` on f64; a tolerance would accept them.
+# ---------------------------------------------------------------------------
+def near_members(m):
+    import math
+    m = float(m)
+    out = [math.nextafter(m, math.inf), math.nextafter(m, -math.inf), m * (1 + 2.0 ** -52), m * (1 - 2.0 ** -52)]
+    if m == 0.0:
+        out += [1e-300, -1e-300, 1e-17, -1e-17, 2.2e-16, 5e-324]
+    else:
+        out += [m + 1e-17 if abs(m) < 0.1 else math.nextafter(math.nextafter(m, math.inf), math.inf)]
+    seen = []
+    for x in out:
+        if x != m and x not in seen and math.isfinite(x):
+            seen.append(x)
+    return seen
+
+
+def floats_of(v):
+    if isinstance(v, float):
+        return [v]
+    if isinstance(v, dict):
+        return [x for y in v.values() for x in floats_of(y)]
+    if isinstance(v, list):
+        return [x for y in v for x in floats_of(y)]
+    return []
+
+
+def lossy_parse(inp, out):
+    """did the compiled parser read a number of the probe as a DIFFERENT f64 (serde_json without
+    float_roundtrip may be off by one ulp)?  Such a probe does not test what it was meant to test."""
+    if isinstance(inp, bool) or isinstance(out, bool):
+        return False
+    if isinstance(inp, float):
+        return isinstance(out, (int, float)) and float(out) != inp
+    if isinstance(inp, dict) and isinstance(out, dict):
+        return any(lossy_parse(v, out[k]) for k, v in inp.items() if k in out)
+    if isinstance(inp, list) and isinstance(out, list):
+        return any(lossy_parse(a, b) for a, b in zip(inp, out))
+    return False
+
+
+def float_cases(seed, n):
+    """Seeded: float-typed allow lists (typed `number` and untyped numeric enum) and deny lists (typed and
+    untyped `not enum`), at definition level and as a struct member; probes = members, far non-members and
+    NEAR members; the oracle classifies every probe."""
+    import random
+    rnd = random.Random(seed * 7368787 + 3)
+    pool = [0.0, 0.5, 1.0, 1.5, 2.25, -3.0, 100.0, 0.001, -0.125, 1e10, 3.0]
+    out = []
+    for k in range(n):
+        vals = rnd.sample(pool, rnd.randrange(1, 4))
+        if all(float(v).is_integer() for v in vals):
+            vals[0] = 0.5 if 0.5 not in vals else 2.25      # keep it a FLOAT enum (an all-integral list is an integer enum)
+        shape = rnd.choice(["typed", "untyped", "not-typed", "not-untyped"])
+        if shape == "typed":
+            g = {"type": "number", "enum": vals}
+        elif shape == "untyped":
+            g = {"enum": vals}
+        elif shape == "not-typed":
+            g = {"type": "number", "not": {"enum": vals}}
+        else:
+            g = {"not": {"enum": vals}}
+        probes = []
+        for m in vals:
+            probes.append(m)
+            probes += near_members(m)
+        probes += [0.25, 2, -7.5, "x", None]
+        defs = {"G": g, "H": {"type": "object", "properties": {"g": {"$ref": "#/definitions/G"}}, "required": ["g"]},
+                "Echo": {"type": "number"}}
+        pl = [{"t": "G", "input": x} for x in probes] + [{"t": "H", "input": {"g": x}} for x in probes[:8]]
+        out.append(("rand-float-%d-%s" % (k, shape), {"defs": defs, "expect": "ok", "probes": pl}))
+    return out
+
+
+def has_flat_union(dump):
+    """a struct all of whose members are flattened Options: the representation of an anyOf of non-exclusive branches"""
+    ents = dump["entries"]
+    for e in ents.values():
+        if e["kind"] == "struct" and len(e["props"]) >= 2 and \
+                all(p["rename"]["k"] == "flatten" and ents.get(str(p["type_id"]), {}).get("kind") == "option" for p in e["props"]):
+            return True
+    return False
+
+
+def all_branches_reject(doc, schema, inst, depth=0):
+    """is there a position whose schema is an anyOf of >= 2 object branches, whose value is an object, and which
+    EVERY branch rejects on its own (oracle)?"""
+    if depth > 10 or not isinstance(schema, dict):
+        return False
+    s = schemagen.resolve(doc, schema)
+    if not isinstance(s, dict):
+        return False
+    bs = s.get("anyOf")
+    if isinstance(bs, list) and len(bs) >= 2 and isinstance(inst, dict) and \
+            all(isinstance(b, dict) and (b.get("type") == "object" or "properties" in b) for b in bs):
+        verd = oracle.classify([(doc, [(b, inst) for b in bs])])[0]
+        if all(x is False for x in verd):
+            return True
+    if isinstance(inst, dict) and isinstance(s.get("properties"), dict):
+        return any(all_branches_reject(doc, ps, inst[k], depth + 1) for k, ps in s["properties"].items() if k in inst)
+    if isinstance(inst, list) and isinstance(s.get("items"), dict):
+        return any(all_branches_reject(doc, s["items"], x, depth + 1) for x in inst)
+    return False
+
+
 def builder_scan(gens):
     """struct_builder = true: every builder field is private, every setter converts
     through TryInto, so a constrained-type member can only be filled by a validated value"""
@@ -632,6 +771,11 @@ def classify_known(ctx, v):
         return False
     if f2(pos, v.get("position_value", inst)):
         return listed.get("unit-variant-of-string-enum-written-as-single-key-object-with-null")
+    # F8: an anyOf of non-exclusive object branches is a struct of flattened Option subtypes; a value that
+    # EVERY branch rejects is accepted with all subtypes None
+    if v.get("ir_has_flattened_union") and isinstance(v.get("document"), dict) and \
+            all_branches_reject(v["document"], {"$ref": "#/definitions/" + v["definition"]}, inst):
+        return listed.get("value-rejected-by-every-branch-of-a-flattened-anyOf-accepted-as-all-None")
     # F4 / F5: a member added to a closed variant object of a tagged oneOf (decided on the schema:
     # the tag is the property every branch pins to one string)
     pvv = v.get("position_value", inst)
@@ -823,7 +967,8 @@ def run(ctx):
                           "document": ex.docs[it["m"]], "definition": it["name"],
                           "definition_schema": ex.docs[it["m"]]["definitions"][it["name"]],
                           "instance": it["v"], "oracle_valid": False, "compiled_answer": it["out"],
-                          "stream": ex.stream[it["m"]], "expected": "from_str::<%s>(instance) is Err" % it["tname"]})
+                          "stream": ex.stream[it["m"]], "expected": "from_str::<%s>(instance) is Err" % it["tname"],
+                          "ir_has_flattened_union": has_flat_union(ex.dumps[it["m"]])})
     # every value the compiled type BUILT from a valid document (explicit members + whatever the serde
     # default functions / Default::default() filled in at any depth) must pass the type's own Deserialize
     rt = [it for it in ex.items if it["valid"] is True and it["accepted"] and isinstance(it["out"].get("text"), str)
@@ -854,6 +999,7 @@ def run(ctx):
         if "defs" in c:
             cc.append(("replay", c))
     cc += default_cases(ctx.seed, 10 if quick else 40)
+    cc += float_cases(ctx.seed, 4 if quick else 16)
     ccases = [{"settings": c.get("settings", {}), "steps": [{"op": "refs", "defs": c["defs"]}]} for _, c in cc]
     cw = world.World(ctx, wname + "c", ccases)
     cw.build()
@@ -869,7 +1015,20 @@ def run(ctx):
             continue
         doc = {"definitions": c["defs"]}
         qs = []
+        # a case with an `Echo` definition ({"type":"number"}): read every float of the probes through the
+        # compiled parser first; a probe containing a float that is read as a DIFFERENT f64 is dropped
+        lossy = set()
+        if "Echo" in c["defs"]:
+            fl = sorted({x for p in c.get("probes", []) for x in floats_of(p["input"])})
+            en = cw.gen[i]["dump"]["entries"][str(cw.gen[i]["dump"]["ref_to_id"]["#/Echo"])]["name"]
+            eo = cw.query([{"m": i, "t": en, "op": "de", "input": json.dumps(x)} for x in fl]) if fl else []
+            lossy = {x for x, o in zip(fl, eo) if "ok" not in o or float(o["ok"]) != x}
+            if lossy:
+                ctx.coverage["probes_read_as_another_f64_by_the_compiled_parser"] = \
+                    ctx.coverage.get("probes_read_as_another_f64_by_the_compiled_parser", 0) + len(lossy)
         for p in c.get("probes", []):
+            if lossy and any(x in lossy for x in floats_of(p["input"])):
+                continue
             # p["t"] is a DEFINITION name; the generated type's name comes from the dump
             ent = cw.gen[i]["dump"]["entries"][str(cw.gen[i]["dump"]["ref_to_id"]["#/" + p["t"]])]
             p = dict(p, tname=ent["name"])
@@ -882,13 +1041,29 @@ def run(ctx):
     couts = cw.query(creqs) if creqs else []
     cverd = [x for b in oracle.classify(cbatches) for x in b] if cbatches else []
     n_cur = 0
+    if MUT == "float_tolerance":
+        # emulate `(*v - value).abs() <= f64::EPSILON` instead of `contains(&value)` in TryFrom<f64>
+        flipped = []
+        for (i, name, c, p), o in zip(cmeta, couts):
+            sch = c["defs"].get(p["t"], {})
+            x = p["input"]
+            if isinstance(sch.get("enum"), list) and isinstance(x, float) and "err" in o and \
+                    any(isinstance(m, (int, float)) and not isinstance(m, bool) and abs(m - x) <= 2.220446049250313e-16
+                        for m in sch["enum"]):
+                o = {"ok": x, "text": json.dumps(x)}
+            flipped.append(o)
+        couts = flipped
     for (i, name, c, p), o, valid in zip(cmeta, couts, cverd):
         n_cur += 1
         ctx.evaluations += 1
         ctx.nontrivial.add("corpus/%s/%s/%s" % (name, p["t"], json.dumps(p["input"])))
-        if valid is False and "ok" in o:
+        if valid is False and "ok" in o and lossy_parse(p["input"], o["ok"]):
+            ctx.coverage["probes_read_as_another_f64_by_the_compiled_parser"] = \
+                ctx.coverage.get("probes_read_as_another_f64_by_the_compiled_parser", 0) + 1
+        elif valid is False and "ok" in o:
             dn = p["t"]
             found.append({"kind": "invalid-instance-accepted", "mutator": "curated", "document": {"definitions": c["defs"]},
+                          "ir_has_flattened_union": has_flat_union(cw.gen[i]["dump"]),
                           "definition": dn, "definition_schema": c["defs"][dn], "instance": p["input"],
                           "oracle_valid": False, "compiled_answer": o, "stream": "corpus:" + name,
                           "expected": "from_str::<%s>(instance) is Err" % p["tname"]})
@@ -926,6 +1101,8 @@ def run(ctx):
             for (i, name, c, p), o, s, m in zip(cmeta, couts, sup, mod):
                 if s != "sup":
                     continue
+                if "ok" in o and lossy_parse(p["input"], o["ok"]):
+                    continue            # the compiled parser read the probe as another f64: not comparable
                 a, b = k5.impl_canon(o), k5.model_canon(m)
                 if not (a[0] == b[0] and (a[0] != "ok" or k5.canon_eq(a[1], b[1]))):
                     cm.append({"case": name, "probe": p, "compiled": o, "model": m[:300]})
@@ -946,7 +1123,12 @@ def run(ctx):
             stream = ex.stream[i].split(":")[0]
             rate[(stream, r)] += 1
             if r != "T":
-                if i in sup_ids and not (set(ex.tags[i]) & EXACT_NOT_PINNED_TAGS):
+                if nullable_tagged_union(ex.docs[i], ex.docs[i]["definitions"][n]):
+                    # Option<tagged enum>: the checker does not understand this shape (it answers false,
+                    # never true wrongly); counted, not pinned
+                    ctx.coverage["validator_unpinned_nullable_tagged_union"] = \
+                        ctx.coverage.get("validator_unpinned_nullable_tagged_union", 0) + 1
+                elif i in sup_ids and not (set(ex.tags[i]) & EXACT_NOT_PINNED_TAGS):
                     pinned_bad.append({"definition": n, "schema": ex.docs[i]["definitions"][n], "tags": ex.tags[i]})
                 else:
                     unpinned[stream] += 1
